@@ -62,8 +62,7 @@ open_ = [m for m in metas if not m.get("caught_by") and not m.get("acknowledged_
 summary = (f"With the machinery as committed, **{len(caught)} of the {len(metas)} seeded changes are reported (exit 1)**; "
            f"{len(ack)} are *acknowledged* misses - each because the statement does not decide the point (a clause that caught it "
            f"would also alarm on conforming implementations) or because it needs something outside what a deterministic simulator "
-           f"controls (a console that cannot print the library's own emoji, re-use of a freed memory address, threads on classes "
-           f"that are not thread-safe in the unchanged code): "
+           f"controls (a console that cannot print the library's own emoji, re-use of a freed memory address): "
            + "; ".join("-".join(m["name"].split("-")[:3] if m["name"].split("-")[1].startswith("r") else m["name"].split("-")[:2]) for m in ack)
            + " - reasons in the table and in `meta.json`."
            + (f" {len(open_)} are not caught and not yet analysed: " + ", ".join(m["name"][:12] for m in open_) + "." if open_ else ""))
